@@ -682,6 +682,50 @@ func (r *runner) structCases(emit func(*caseJ)) {
 			}
 		}
 	}
+	// tracing switched on (trace.SetEnabled, what trace.Run does for the node; no exporter, the
+	// global no-op tracer provider): p2pmsg.Unmarshal then keeps the envelope's trace field and
+	// P2PMessaging.handle -> newSpanForReceive -> ExtractTraceContext reads it for every accepted
+	// message. Accepted messages of every flavour with the trace field over all length classes.
+	states := []string{"", "a=b", "vendor1=opaque,vendor2=x", "\u00e9=,;", "=", "a=b=c,,", "A B", strings.Repeat("k=v,", 200), strings.Repeat("x", 5000)}
+	for _, fl := range g.Flavours {
+		for _, base := range validFor(r.mat, fl) {
+			if base.Type != "keys" && base.Type != "trigger" && base.Type != "commit" {
+				continue
+			}
+			topic := topicOf(base)
+			m := base.Clone()
+			m.Fill()
+			pm := m.Build(r.mat)
+			withTrace := func(tc *p2pmsg.TraceContext, origin string) {
+				b, err := p2pmsg.Marshal(pm, tc)
+				if err != nil {
+					panic(err)
+				}
+				emit(&caseJ{Kind: "bytes", Flavour: fl, State: sts[0], RegTopic: topic, MsgTopic: topic, Data: hex.EncodeToString(b), Trace: true,
+					Origin: "trace:" + fl + ":" + base.Type + ":" + origin})
+			}
+			withTrace(nil, "absent")
+			for _, lt := range []int{0, 1, 8, 15, 16, 17, 32} {
+				for _, ls := range []int{0, 1, 7, 8, 9, 16} {
+					for _, lf := range []int{0, 1, 2} {
+						if base.Type != "keys" && !(lt == 16 || ls == 8) {
+							continue // the full product on the keys message, the neighbourhood of the valid lengths elsewhere
+						}
+						tc := &p2pmsg.TraceContext{TraceId: bytesOf(lt, 0x11), SpanId: bytesOf(ls, 0x22), TraceFlags: bytesOf(lf, 0x01), TraceState: "a=b"}
+						withTrace(tc, fmt.Sprintf("id=%d,span=%d,flags=%d", lt, ls, lf))
+					}
+				}
+			}
+			for i, ts := range states {
+				for _, lf := range []int{0, 1} {
+					tc := &p2pmsg.TraceContext{TraceId: bytesOf(16, 0x11), SpanId: bytesOf(8, 0x22), TraceFlags: bytesOf(lf, 0x01), TraceState: ts}
+					withTrace(tc, fmt.Sprintf("state-%d,flags=%d", i, lf))
+				}
+			}
+			withTrace(&p2pmsg.TraceContext{TraceId: make([]byte, 16), SpanId: make([]byte, 8), TraceFlags: []byte{0}}, "all-zero")
+			withTrace(&p2pmsg.TraceContext{}, "empty")
+		}
+	}
 	// in-memory only: nil inner messages
 	for _, fl := range g.Flavours {
 		for _, base := range validFor(r.mat, fl) {
@@ -696,6 +740,14 @@ func (r *runner) structCases(emit func(*caseJ)) {
 			}
 		}
 	}
+}
+
+func bytesOf(n int, v byte) []byte {
+	b := make([]byte, n)
+	for i := range b {
+		b[i] = v + byte(i)
+	}
+	return b
 }
 
 // corrupt applies one byte-level mutation.
@@ -749,11 +801,21 @@ func (r *runner) rawCase(rng *vh.RNG, emit func(*caseJ)) {
 	fl := g.Flavours[rng.Intn(len(g.Flavours))]
 	valid := validFor(r.mat, fl)
 	muts := light(mutations(r.mat, fl))
+	traced := rng.Chance(1, 3)
 	pick := func() (*g.Msg, []byte) {
 		m := valid[rng.Intn(len(valid))].Clone()
 		m.Fill()
 		if rng.Chance(1, 3) {
 			muts[rng.Intn(len(muts))].f(m)
+		}
+		if traced {
+			tc := &p2pmsg.TraceContext{TraceId: bytesOf(vh.Pick(rng, 0, 15, 16, 16, 16, 17), 3), SpanId: bytesOf(vh.Pick(rng, 0, 7, 8, 8, 8, 9), 5),
+				TraceFlags: bytesOf(vh.Pick(rng, 0, 1, 1, 2), 1), TraceState: vh.Pick(rng, "", "a=b", "\u00e9", "k=v,k=v")}
+			b, err := p2pmsg.Marshal(m.Build(r.mat), tc)
+			if err != nil {
+				panic(err)
+			}
+			return m, b
 		}
 		return m, encodeMsg(r.mat, m)
 	}
@@ -771,7 +833,7 @@ func (r *runner) rawCase(rng *vh.RNG, emit func(*caseJ)) {
 		st = sts[rng.Intn(len(sts))]
 	}
 	c := &caseJ{Kind: "bytes", Flavour: fl, State: st, RegTopic: topic, MsgTopic: topic, Data: hex.EncodeToString(data), Raw: rng.Chance(1, 2),
-		Trace: rng.Chance(1, 8), Origin: "raw:" + fl}
+		Trace: traced || rng.Chance(1, 8), Origin: "raw:" + fl}
 	if rng.Chance(1, 4) {
 		c.State2 = sts[rng.Intn(len(sts))]
 	}
